@@ -1,10 +1,11 @@
 #!/bin/sh
 # usage: tools/try_mutant.sh <PROP> <patch.diff> [extra check args]
+# MUT_BASE=<commit> applies it to that commit instead of HEAD (for patches that conflict with later hook/fix commits).
 # Applies the patch to a scratch worktree of /repo (never to /repo itself), runs the check against it, removes the worktree.
 PROP=$1; PATCH=$2; shift 2
 WT=/tmp/mutwt-$$
-git -C /repo worktree add -q --detach $WT HEAD || exit 2
-if ! git -C $WT apply "$PATCH"; then echo "PATCH DOES NOT APPLY"; git -C /repo worktree remove --force $WT; exit 2; fi
+git -C /repo worktree add -q --detach $WT ${MUT_BASE:-HEAD} || exit 2
+if ! git -C $WT apply "$PATCH" 2>/dev/null && ! git -C $WT apply --3way "$PATCH" 2>/dev/null && ! (cd $WT && patch -p1 -s -F3 < "$PATCH"); then echo "PATCH DOES NOT APPLY"; git -C /repo worktree remove --force $WT; exit 2; fi
 cd /verif && VERIF_REPO=$WT ./check $PROP --no-evidence "$@"
 rc=$?
 git -C /repo worktree remove --force $WT
